@@ -498,7 +498,14 @@ where
 
         let qual_len = self.buf_pos.pos.1 - self.buf_pos.qual + 1;
         let seq_len = self.buf_pos.sep - self.buf_pos.seq;
-        if seq_len != qual_len {
+        let unequal = if self.buf_pos.pos.1 < self.get_buf().len() {
+            seq_len != qual_len
+        } else {
+            // no terminator after the quality line (end of input):
+            // compare the lengths without line terminators
+            self.buf_pos.seq(self.get_buf()).len() != self.buf_pos.qual(self.get_buf()).len()
+        };
+        if unequal {
             self.state = State::Finished;
             return Err(Error::UnequalLengths {
                 seq: self.buf_pos.seq(self.get_buf()).len(),
